@@ -96,3 +96,18 @@ func VfC06_RoundRobin() {
 		nd.Assert(counts[i] == k, "round-robin gives each of n hosts exactly k of n*k consecutive selections")
 	}
 }
+
+// VfC06_RoundRobinConcurrent: two accepts selecting at the same time still get distinct hosts out
+// of two (each of n hosts exactly k of n*k selections, here n=2, k=1), whatever the interleaving
+// of their atomic operations.
+func VfC06_RoundRobinConcurrent() {
+	nd.VisibleAtomics(true)
+	hs := vfHosts(2)
+	b := newRoundRobinBalancer()
+	var got [2]*host.Host
+	go func() { got[0] = b.PickHost(hs) }()
+	go func() { got[1] = b.PickHost(hs) }()
+	nd.Quiesce()
+	nd.Assert(got[0] != nil && got[1] != nil && got[0] != got[1], "two concurrent round-robin selections over two hosts pick each host once")
+	nd.Cover("both-picked")
+}
